@@ -179,9 +179,16 @@ Holds(c) == CASE c = "C12_OneSignaturePerSlot" -> C12_OneSignaturePerSlot
               [] c = "C12_LoggedBeforePublished" -> C12_LoggedBeforePublished
               [] c = "Conf_FilterVerdict" -> Conf_FilterVerdict [] c = "Conf_FilterState" -> Conf_FilterState [] c = "Conf_RearmedFromWAL" -> Conf_RearmedFromWAL
               [] c = "Conf_Published" -> Conf_Published [] c = "Conf_WAL" -> Conf_WAL [] c = "Conf_Self" -> Conf_Self
+\* Failing (line, clause) pairs are printed as they occur.  Conformance failures cascade once the model has
+\* diverged from the code, so only the first 40 are printed; property clauses are always printed (up to 400).
+PropClauses == {"C12_OneSignaturePerSlot", "C12_NoOlderInstance", "C12_LoggedBeforePublished"}
 TStep == /\ TNext
-         /\ LET nb == {c \in Clauses : ~(Holds(c))'} IN
+         /\ LET nb == {c \in Clauses : ~(Holds(c))'}
+                nbp == nb \cap PropClauses IN
               /\ bad' = bad \cup {<<l, c>> : c \in nb}
-              /\ (nb = {} \/ Cardinality(bad) > 40 \/ PrintT(<<"VERIF_BAD", l, nb>>))
+              /\ \/ nb = {}
+                 \/ (nbp = {} /\ Cardinality(bad) > 40)
+                 \/ Cardinality(bad) > 400
+                 \/ PrintT(<<"VERIF_BAD", l, IF Cardinality(bad) > 40 THEN nbp ELSE nb>>)
 TSpec == TInit /\ [][TStep]_tvars
 =============================================================================
